@@ -63,6 +63,8 @@ def compare(ref, var, what, classes, T):
 
 def check_labels(case):
     classes = ["algo:" + algo_label(case["algo"]), "part:" + case["partition"]["cls"], "labels:" + ("list" if "list" in case["labels"] else "t0=%s" % case["labels"].get("t0"))]
+    if case["labels"].get("type"):
+        classes.append("label-type:" + case["labels"]["type"])
     refcase = dict(case)
     refcase.pop("labels")
     ref = trace(refcase)
@@ -122,6 +124,10 @@ def label_cases(draw, tier):
         c["labels"] = {"list": lab}
     else:
         c["labels"] = {"t0": draw(st.sampled_from([0, 0, 17, -3, 10 ** 6, 2]))}
+    # "any other increasing labels": time stamps also arrive as numpy integers or as floats
+    kind = draw(st.sampled_from(["int", "int", "int", "npint", "float"]))
+    if kind != "int":
+        c["labels"]["type"] = kind
     return c
 
 
